@@ -47,8 +47,11 @@ type Fault struct {
 	// under reordering inside a concurrent batch, indexes are not).
 	Label      string `json:"label"`
 	Occurrence int    `json:"occurrence"`
-	// Kind: reject | wait-fail | store-fail | crash
+	// Kind: reject | timeout (504, not persisted) | wait-fail | store-fail | crash
 	Kind string `json:"kind"`
+	// OnThread, when non-zero, restricts the fault to calls of logical thread OnThread-1 (concurrent
+	// scenarios); Occurrence then counts that thread's calls with the label only.
+	OnThread int `json:"on_thread,omitempty"`
 }
 
 func (f *Fault) String() string {
@@ -187,6 +190,14 @@ func (s *Sim) Enter(thread int, label, class string, mutating bool) string {
 	n := s.occ[label]
 	s.occ[label] = n + 1
 	s.Calls = append(s.Calls, Call{Label: label, Occurrence: n, Class: class, Mutating: mutating})
+	if s.fault != nil && s.fault.OnThread != 0 {
+		if s.fault.OnThread != thread+1 {
+			return ""
+		}
+		tk := fmt.Sprintf("\x00%d|%s", thread, label)
+		n = s.occ[tk]
+		s.occ[tk] = n + 1
+	}
 	if s.fault != nil && !s.hit && s.fault.Label == label && s.fault.Occurrence == n {
 		s.hit = true
 		if s.fault.Kind == "crash" {
@@ -404,7 +415,10 @@ func (t *transport) RoundTrip(req *http.Request) (*http.Response, error) {
 	e := Entry{Thread: t.thread, Verb: req.Method, Path: path, Label: label, Class: class, Fault: f}
 	var code int
 	var out []byte
-	if f != "" {
+	if f == "timeout" {
+		// the request times out at the server without having been persisted
+		code, out = 504, status(504, "Timeout", "injected: "+f)
+	} else if f != "" {
 		code, out = 403, status(403, "Forbidden", "injected: "+f)
 	} else {
 		s.mu.Lock()
